@@ -50,6 +50,11 @@ def extent_spec(draw, tier="quick", kind=None, layer=0, capacity=None, allow_com
             spec.update(embedded_lba=draw(st.sampled_from([True, True, False])), footer=draw(st.sampled_from([True, True, False])),
                         cmix=draw(st.integers(0, 2)), version=3)
             grain = min(grain, 256)
+            if draw(st.integers(0, 2)) == 0:
+                # deflate streams sized around the 512-byte sector boundaries of header + data
+                spec["ctargets"] = draw(st.lists(st.one_of(st.integers(494, 518), st.integers(1006, 1030), st.integers(20, 600)),
+                                                 min_size=1, max_size=6))
+                grain = min(grain, 64)
         else:
             spec.update(meta_first=draw(st.sampled_from([True, True, False])), version=draw(st.sampled_from([1, 1, 2])))
     elif kind == "cowd":
